@@ -1,6 +1,7 @@
 """C12 - The interpreter (VM) encoder is observably equivalent to the JIT encoder."""
 import json
 import os
+import time
 
 from . import common as c
 from . import C03_lib as L
@@ -33,7 +34,10 @@ def run(ctx):
         "the executors are modelled as one machine with executor-specific parameters; that the x86 code implements each op like vm.go is tied by running both, not proved",
         "float digits other than the sign of zero are an oracle shared by both primitive sets (C19)",
     ]
+    t0 = time.time()
+    ctx.cov["phase_s"] = {}
     p_ok = c.standard_P(ctx, CLAIM["gens"], L.SUPPORT + ["Enc/IntBridge.v", "Enc/C12Proofs.v"])
+    ctx.cov["phase_s"]["P"] = round(time.time() - t0, 1)
     problems = []
     if not p_ok:
         problems.append(("P", getattr(ctx, "p_fail", "proof half failed")))
@@ -41,7 +45,9 @@ def run(ctx):
     if not ok:
         ctx.violation("harness does not build against the repository: " + hb[-1500:], {"build": hb}, False)
         return
+    t1 = time.time()
     mok, mexe = c.build_model("C03")
+    ctx.cov["phase_s"]["model_build"] = round(time.time() - t1, 1)
     if not mok:
         problems.append(("T", "model extraction/driver build failed: " + mexe[-1200:]))
     d = L.work("C12")
@@ -131,6 +137,7 @@ def run(ctx):
                        "interpreter process; distinct = distinct (type size, value size, option word, output prefix) with a non-scalar type or value")
     ctx.cov["distribution"] = dist
     ctx.cov["counts"] = st
+    ctx.cov["phase_s"].update(L.TIMES)
     ctx.cov["skipped_too_large"] = len(skipped)
     ctx.cov["traces_validated_against_impl"] = st["tie"] - st["tie_bad"]
     for cid in list(feat)[:2] + list(feat)[-2:]:
